@@ -312,6 +312,49 @@ Proof.
   - intros [= -> ->]. rewrite Z.eqb_refl. apply IH. reflexivity.
 Qed.
 
+(* ---- generic field-access lemmas ---- *)
+
+Lemma sub_app_skip (a b : bytes) off len k :
+  zlen a = k -> k <= off -> sub off len (a ++ b) = sub (off - k) len b.
+Proof.
+  intros Hk Hle. unfold sub. f_equal.
+  pose proof (zlen_nonneg a).
+  replace off with ((off - k) + zlen a) at 1 by lia.
+  rewrite <- zskipn_zskipn by lia. rewrite zskipn_app_exact. reflexivity.
+Qed.
+
+Lemma sub_app_here (a b : bytes) len : zlen a = len -> sub 0 len (a ++ b) = a.
+Proof.
+  intros <-. unfold sub. change (zskipn 0 (a ++ b)) with (a ++ b). apply zfirstn_app_exact.
+Qed.
+
+Lemma sub_here_exact (a : bytes) len : zlen a = len -> sub 0 len a = a.
+Proof. intros <-. apply sub_all. Qed.
+
+Lemma rd_app_skip (a b : bytes) off w k :
+  zlen a = k -> k <= off -> rd off w (a ++ b) = rd (off - k) w b.
+Proof. intros; unfold rd; f_equal; apply sub_app_skip; auto. Qed.
+
+Lemma rd_app_here (a b : bytes) w : zlen a = Z.of_nat w -> rd 0 w (a ++ b) = le_dec a.
+Proof. intros; unfold rd; f_equal; apply sub_app_here; auto. Qed.
+
+Lemma rd_here_exact (a : bytes) w : zlen a = Z.of_nat w -> rd 0 w a = le_dec a.
+Proof. intros; unfold rd; f_equal; apply sub_here_exact; auto. Qed.
+
+Lemma le1 v : zlen (le_enc 1 v) = 1. Proof. exact (zlen_le_enc 1 v). Qed.
+Lemma le2 v : zlen (le_enc 2 v) = 2. Proof. exact (zlen_le_enc 2 v). Qed.
+Lemma le4 v : zlen (le_enc 4 v) = 4. Proof. exact (zlen_le_enc 4 v). Qed.
+Lemma le8 v : zlen (le_enc 8 v) = 8. Proof. exact (zlen_le_enc 8 v). Qed.
+
+
+Lemma zskipn_cons_succ {A} (x : A) l j : 0 <= j -> zskipn (j + 1) (x :: l) = zskipn j l.
+Proof. intros. unfold zskipn. replace (Z.to_nat (j + 1)) with (S (Z.to_nat j)) by lia. reflexivity. Qed.
+
+Ltac glue b a l1 l2 :=
+  let H := fresh in
+  pose proof (window_glue b a l1 l2 ltac:(lia) ltac:(lia) ltac:(lia)) as H;
+  simpl Z.add in H; rewrite H; clear H.
+
 (* ---- outcomes ---- *)
 
 Lemma bind_ok {A B} (x : outcome A) (f : A -> outcome B) b :
